@@ -23,7 +23,7 @@ func init() { core.Register(check{}) }
 func (check) ID() string    { return "C10" }
 func (check) Level() string { return "model_checking" }
 func (check) Rule() string {
-	return "explicit-state search, breadth first, over edit histories on the real proto/generic.Value: initial states = 30 reference-encoded messages (flat scalars, packed/unpacked/message lists, maps with string/int32/sint64/uint32/fixed32 keys and scalar/message values, nested trees of depth <=3 with sub-message lengths 126/127/128 and 16383/16384, recursion); operations enabled in a state = for every present node: SetByPath with 2-3 replacement values per kind chosen to shrink, keep and grow the encoded size (incl. to zero and across the 1->2 byte length-prefix boundary), replacement of a sub-message by an empty and by a one-field message, UnsetByPath; for every list: insert at index len and at index 1024; for every map: insert of an absent key; for every message: insert of absent scalar/message fields, UnsetByPath of an absent field (no-op); SetMany at the root, at nested messages and at lists (2 items: replace+insert / two appends); name-addressed variants at depth 1. All histories of length <=2 (quick) / <=4 (thorough), successor = replay on fresh bytes + one operation, states de-duplicated on the decoded model inside one first-operation subtree; every transition is executed on the implementation and on the model and compared through protobuf-go (counters states / transitions / traces_validated_against_impl). One case = (initial state, first operation). Plus PathNode.Load(lazy|recursive)+Marshal for every message of the C07 family, on a fresh tree and on a tree that had loaded another message of the program before (the largest; every message for the nested program) (counter dom_roundtrips). A case is non-trivial if it executed at least one transition / round trip. Later additions: 34 initial states (map entries of 127/128 bytes, a recursive message with fields 63/64/70/255/300 and adjacent same-number containers, packed lists inside elements of a message list), SetMany on maps and of the last message-typed field, by-name nested appends and outer-only keys, a twin root value over the same bytes that must keep them, DOM round trips on reused trees, the same-simple-name program. Round 8: DOM round trips with descriptors lacking the first / middle / last field of every message."
+	return "explicit-state search, breadth first, over edit histories on the real proto/generic.Value: initial states = 30 reference-encoded messages (flat scalars, packed/unpacked/message lists, maps with string/int32/sint64/uint32/fixed32 keys and scalar/message values, nested trees of depth <=3 with sub-message lengths 126/127/128 and 16383/16384, recursion); operations enabled in a state = for every present node: SetByPath with 2-3 replacement values per kind chosen to shrink, keep and grow the encoded size (incl. to zero and across the 1->2 byte length-prefix boundary), replacement of a sub-message by an empty and by a one-field message, UnsetByPath; for every list: insert at index len and at index 1024; for every map: insert of an absent key; for every message: insert of absent scalar/message fields, UnsetByPath of an absent field (no-op); SetMany at the root, at nested messages and at lists (2 items: replace+insert / two appends); name-addressed variants at depth 1. All histories of length <=2 (quick) / <=4 (thorough), successor = replay on fresh bytes + one operation, states de-duplicated on the decoded model inside one first-operation subtree; every transition is executed on the implementation and on the model and compared through protobuf-go (counters states / transitions / traces_validated_against_impl). One case = (initial state, first operation). Plus PathNode.Load(lazy|recursive)+Marshal for every message of the C07 family, on a fresh tree and on a tree that had loaded another message of the program before (the largest; every message for the nested program) (counter dom_roundtrips). A case is non-trivial if it executed at least one transition / round trip. Later additions: 34 initial states (map entries of 127/128 bytes, a recursive message with fields 63/64/70/255/300 and adjacent same-number containers, packed lists inside elements of a message list), SetMany on maps and of the last message-typed field, by-name nested appends and outer-only keys, a twin root value over the same bytes that must keep them, DOM round trips on reused trees, the same-simple-name program. Round 8: DOM round trips with descriptors lacking the first / middle / last field of every message. Round 10: SetMany of two present list elements in both request orders."
 }
 
 func (check) Assumptions() []string {
